@@ -1,0 +1,368 @@
+//go:build verif
+
+package engine
+
+// Observation hooks for the verification harness in /verif (build tag "verif").
+// Nothing here changes behaviour; without the tag this file is not compiled.
+
+import (
+	"context"
+	"fmt"
+	"strings"
+)
+
+// VerifInstr is one bytecode instruction in printable form.
+type VerifInstr struct {
+	Op      string
+	Operand Term // nil when the instruction has none
+}
+
+// VerifClause is the observable content of a compiled clause.
+type VerifClause struct {
+	Name  string
+	Arity int
+	Raw   Term
+	NVars int
+	Vars  []Variable
+	Code  []VerifInstr
+}
+
+var verifOpNames = [...]string{
+	opEnter: "enter", opCall: "call", opExit: "exit", opGetConst: "get_const", opPutConst: "put_const",
+	opGetVar: "get_var", opPutVar: "put_var", opGetFunctor: "get_functor", opPutFunctor: "put_functor",
+	opPop: "pop", opCut: "cut", opGetList: "get_list", opPutList: "put_list",
+	opGetPartial: "get_partial", opPutPartial: "put_partial",
+}
+
+func verifClause(c clause) VerifClause {
+	vc := VerifClause{Name: c.pi.name.String(), Arity: int(c.pi.arity), Raw: c.raw, NVars: len(c.vars), Vars: append([]Variable(nil), c.vars...)}
+	for _, in := range c.bytecode {
+		name := fmt.Sprintf("op%d", in.opcode)
+		if int(in.opcode) < len(verifOpNames) {
+			name = verifOpNames[in.opcode]
+		}
+		var operand Term
+		switch o := in.operand.(type) {
+		case nil:
+		case procedureIndicator:
+			operand = o.Term()
+		default:
+			operand = o
+		}
+		vc.Code = append(vc.Code, VerifInstr{Op: name, Operand: operand})
+	}
+	return vc
+}
+
+// VerifCompile compiles a clause term exactly as assert/consult do. A Go panic inside the
+// compiler is reported as an error.
+func VerifCompile(t Term, env *Env) (out []VerifClause, err error) {
+	defer func() {
+		if r := recover(); r != nil {
+			err = panicError(r)
+		}
+	}()
+	cs, err := compile(t, env)
+	if err != nil {
+		return nil, err
+	}
+	for _, c := range cs {
+		out = append(out, verifClause(c))
+	}
+	return out, nil
+}
+
+// VerifProc describes one entry of the procedure table.
+type VerifProc struct {
+	Name          string
+	Arity         int
+	Builtin       bool
+	Dynamic       bool
+	Public        bool
+	Multifile     bool
+	Discontiguous bool
+	Clauses       []VerifClause
+}
+
+// VerifProcedures lists every procedure the VM knows.
+func (vm *VM) VerifProcedures() []VerifProc {
+	var out []VerifProc
+	for pi, p := range vm.procedures {
+		vp := VerifProc{Name: pi.name.String(), Arity: int(pi.arity)}
+		switch u := p.(type) {
+		case *userDefined:
+			vp.Dynamic, vp.Public, vp.Multifile, vp.Discontiguous = u.dynamic, u.public, u.multifile, u.discontiguous
+			for _, c := range u.clauses {
+				vp.Clauses = append(vp.Clauses, verifClause(c))
+			}
+		default:
+			vp.Builtin = true
+		}
+		out = append(out, vp)
+	}
+	return out
+}
+
+// VerifEnvNode is a node of the persistent red-black tree behind *Env.
+type VerifEnvNode struct {
+	Red         bool
+	Key         int64
+	Value       Term
+	Left, Right *VerifEnvNode
+}
+
+// VerifDump exposes the tree shape of an environment (nil for the empty environment).
+func (e *Env) VerifDump() *VerifEnvNode {
+	if e == nil {
+		return nil
+	}
+	return &VerifEnvNode{Red: e.color == red, Key: int64(e.key), Value: e.value, Left: e.left.VerifDump(), Right: e.right.VerifDump()}
+}
+
+// VerifBind / VerifLookup expose bind and lookup.
+func (e *Env) VerifBind(v Variable, t Term) *Env { return e.bind(v, t) }
+
+func (e *Env) VerifLookup(v Variable) (Term, bool) { return e.lookup(v) }
+
+// VerifUnify exposes unify with the occurs-check switch; the returned env is the one the
+// implementation returns even when ok is false.
+func (e *Env) VerifUnify(x, y Term, occursCheck bool) (*Env, bool) { return e.unify(x, y, occursCheck) }
+
+// VerifSimplify exposes simplify.
+func (e *Env) VerifSimplify(t Term) Term { return e.simplify(t) }
+
+// VerifVarContext is the special variable bound by Arrive.
+func VerifVarContext() Variable { return varContext }
+
+// Exported wrappers of the three unexported promise constructors.
+func VerifCut(parent *Promise, k func(context.Context) *Promise) *Promise { return cut(parent, k) }
+
+func VerifCatch(recover func(error) *Promise, k func(context.Context) *Promise) *Promise {
+	return catch(recover, k)
+}
+
+func VerifRepeat(k func(context.Context) *Promise) *Promise { return repeat(k) }
+
+func verifErrName(err error) string {
+	if err == nil {
+		return ""
+	}
+	if ev, ok := err.(exceptionalValue); ok {
+		return "eval:" + ev.Term().(Atom).String()
+	}
+	if ex, ok := err.(Exception); ok {
+		var sb strings.Builder
+		_ = ex.term.WriteTerm(&sb, &defaultWriteOptions, nil)
+		return "exception:" + sb.String()
+	}
+	return "error:" + err.Error()
+}
+
+// VerifIntOp calls an integer kernel of number.go directly. A Go panic is reported as "panic:…".
+func VerifIntOp(name string, x, y int64) (r int64, errName string) {
+	defer func() {
+		if p := recover(); p != nil {
+			r, errName = 0, fmt.Sprintf("panic:%v", p)
+		}
+	}()
+	var (
+		v   Integer
+		err error
+	)
+	a, b := Integer(x), Integer(y)
+	switch name {
+	case "addI":
+		v, err = addI(a, b)
+	case "subI":
+		v, err = subI(a, b)
+	case "mulI":
+		v, err = mulI(a, b)
+	case "intDivI":
+		v, err = intDivI(a, b)
+	case "remI":
+		v, err = remI(a, b)
+	case "modI":
+		v, err = modI(a, b)
+	case "negI":
+		v, err = negI(a)
+	case "absI":
+		v, err = absI(a)
+	case "signI":
+		v = signI(a)
+	case "posI":
+		v, err = posI(a)
+	case "intFloorDivI":
+		v, err = intFloorDivI(a, b)
+	case "intPow":
+		v, err = intPow(a, b)
+	default:
+		// functors that dispatch on Number: go through the tables
+		if f, ok := binaryFunctors[NewAtom(name)]; ok {
+			var n Number
+			n, err = f(a, b)
+			if i, ok := n.(Integer); ok {
+				v = i
+			} else if n != nil {
+				return 0, "notint"
+			}
+		} else if f, ok := unaryFunctors[NewAtom(name)]; ok {
+			var n Number
+			n, err = f(a)
+			if i, ok := n.(Integer); ok {
+				v = i
+			} else if n != nil {
+				return 0, "notint"
+			}
+		} else {
+			return 0, "unknown"
+		}
+	}
+	return int64(v), verifErrName(err)
+}
+
+// VerifEvalFunctor applies an evaluable functor from the dispatch tables to numbers.
+func VerifEvalFunctor(name string, args ...Term) (res Term, errName string) {
+	defer func() {
+		if p := recover(); p != nil {
+			res, errName = nil, fmt.Sprintf("panic:%v", p)
+		}
+	}()
+	ns := make([]Number, len(args))
+	for i, a := range args {
+		n, ok := a.(Number)
+		if !ok {
+			return nil, "notnumber"
+		}
+		ns[i] = n
+	}
+	var (
+		n   Number
+		err error
+	)
+	switch len(ns) {
+	case 1:
+		f, ok := unaryFunctors[NewAtom(name)]
+		if !ok {
+			return nil, "unknown"
+		}
+		n, err = f(ns[0])
+	case 2:
+		f, ok := binaryFunctors[NewAtom(name)]
+		if !ok {
+			return nil, "unknown"
+		}
+		n, err = f(ns[0], ns[1])
+	default:
+		return nil, "unknown"
+	}
+	if err != nil {
+		return nil, verifErrName(err)
+	}
+	return n, ""
+}
+
+// VerifCompareNumbers applies one of the arithmetic comparison kernels (eq neq lss leq gtr geq).
+func VerifCompareNumbers(op string, x, y Term) (bool, string) {
+	type cmp struct {
+		ii func(Integer, Integer) bool
+		ff func(Float, Float) bool
+		fi func(Float, Integer) bool
+		iF func(Integer, Float) bool
+	}
+	tbl := map[string]cmp{
+		"eq":  {eqI, eqF, eqFI, eqIF},
+		"neq": {neqI, neqF, neqFI, neqIF},
+		"lss": {lssI, lssF, lssFI, lssIF},
+		"leq": {leqI, leqF, leqFI, leqIF},
+		"gtr": {gtrI, gtrF, gtrFI, gtrIF},
+		"geq": {geqI, geqF, geqFI, geqIF},
+	}
+	c, ok := tbl[op]
+	if !ok {
+		return false, "unknown"
+	}
+	switch x := x.(type) {
+	case Integer:
+		switch y := y.(type) {
+		case Integer:
+			return c.ii(x, y), ""
+		case Float:
+			return c.iF(x, y), ""
+		}
+	case Float:
+		switch y := y.(type) {
+		case Integer:
+			return c.fi(x, y), ""
+		case Float:
+			return c.ff(x, y), ""
+		}
+	}
+	return false, "notnumber"
+}
+
+// VerifToken is a lexical token.
+type VerifToken struct {
+	Kind string
+	Val  string
+}
+
+// VerifTokens tokenises src with the real lexer; the error (if any) ends the list.
+func VerifTokens(src string) (toks []VerifToken, errText string) {
+	l := Lexer{input: newRuneRingBuffer(strings.NewReader(src))}
+	for i := 0; i < 1<<20; i++ {
+		t, err := l.Token()
+		if err != nil {
+			return toks, err.Error()
+		}
+		toks = append(toks, VerifToken{Kind: t.kind.String(), Val: t.val})
+		if t.kind == tokenEnd && false {
+			break
+		}
+	}
+	return toks, "too many tokens"
+}
+
+// VerifNeedQuoted / VerifQuote expose the atom writer's helpers.
+func VerifNeedQuoted(name string) bool { return needQuoted(NewAtom(name)) }
+
+func VerifQuote(name string) string { return quote(name) }
+
+// VerifTermRep reports which Go encoding a term uses.
+func VerifTermRep(t Term) string {
+	switch t := t.(type) {
+	case Variable:
+		return "var"
+	case Atom:
+		return "atom"
+	case Integer:
+		return "int"
+	case Float:
+		return "float"
+	case charList:
+		return "charList"
+	case codeList:
+		return "codeList"
+	case list:
+		return "list"
+	case *partial:
+		return "partial(" + VerifTermRep(t.Compound) + ")"
+	case *compound:
+		return "compound"
+	case Compound:
+		return fmt.Sprintf("compound(%T)", t)
+	default:
+		return fmt.Sprintf("%T", t)
+	}
+}
+
+// VerifVarCounter reads the global variable counter.
+func VerifVarCounter() int64 { return int64(lastVariable()) }
+
+// VerifVariant exposes variant/2 as used by bagof/setof.
+func VerifVariant(t1, t2 Term, env *Env) bool { return variant(t1, t2, env) }
+
+// VerifRenamedCopy exposes renamedCopy.
+func VerifRenamedCopy(t Term, env *Env) (Term, error) { return renamedCopy(t, nil, env) }
+
+// VerifExpandDCG exposes the DCG translation.
+func VerifExpandDCG(t Term, env *Env) (Term, error) { return expandDCG(t, env) }
